@@ -280,7 +280,7 @@ func checkPrio(prop string, sc *PrioSc, res *simrt.Result) Verdict {
 	case "C16":
 		checkPrioStop(&vd, v)
 	case "C17":
-		checkDynamic(&vd, v)
+		checkDynamic(&vd, v, nil)
 	case "C19", "C20":
 		seq, how := v.terminated()
 		checkGoroutines(&vd, res, seq, how, v.stopRet >= 0 || v.gracefulRet >= 0)
@@ -388,6 +388,16 @@ func checkCapacity(vd *Verdict, v *prioView) {
 
 func checkExactlyOnce(vd *Verdict, v *prioView) {
 	sc := v.sc
+
+	if sc.Class == "dynamic" {
+		// channels registered (or replaced) through AddInput are input channels too
+		checkDynamic(vd, v, map[string]bool{
+			"wrong-tag": true, "delivered-twice": true, "delivered-not-written": true,
+			"read-item-lost": true, "order-per-priority": true, "terminated-with-undelivered-item": true,
+		})
+
+		return
+	}
 
 	if sc.Class != "normal" {
 		return
@@ -551,6 +561,24 @@ func checkShare(vd *Verdict, v *prioView) {
 			return
 		}
 
+		// settled = nothing was released for a while (the shrinker may shorten the pauses)
+		lastRel := int64(0)
+
+		for _, r := range v.res.Hist {
+			if r.Seq > m.Seq {
+				break
+			}
+
+			if r.Kind == simrt.KNote && r.Note == "release" {
+				lastRel = r.T
+			}
+		}
+
+		if m.T-lastRel < int64(40+4*sc.H) {
+			vd.probe("mark-too-early-to-judge")
+			continue
+		}
+
 		for p, want := range share {
 			if per[p] != int(want) {
 				vd.fail("share-not-reached", "settled point #%d (t=%dns): priority %d holds %d items, its share is %d (in flight per priority %v, shares %v, H=%d, divider %s)", m.Val, m.T, p, per[p], want, per, share, sc.H, sc.Divider)
@@ -570,10 +598,31 @@ func checkProgress(vd *Verdict, v *prioView) {
 	sc := v.sc
 
 	switch sc.Class {
-	case "single":
+	case "single", "sparse":
 		// exactly one priority has data: it must be granted all H handlers
 		for _, m := range v.marks {
 			if m.Val != 0 || (v.autoall >= 0 && m.Seq > v.autoall) {
+				continue
+			}
+
+			// the mark only counts if at least H items of the lone priority had been
+			// written, and the last of them long enough ago for the discipline's 1 ns
+			// rounds to have handed them out (the shrinker may shorten the script)
+			avail, lastT := 0, int64(0)
+
+			for _, r := range v.res.Hist {
+				if r.Seq > m.Seq {
+					break
+				}
+
+				if r.Kind == simrt.KSend && !r.Lib && r.ChName == "in[0]" {
+					avail++
+					lastT = r.T
+				}
+			}
+
+			if avail < sc.H || m.T-lastT < int64(40+4*sc.H) {
+				vd.probe("mark-too-early-to-judge")
 				continue
 			}
 
@@ -581,7 +630,37 @@ func checkProgress(vd *Verdict, v *prioView) {
 			p := sc.Inputs[0].Prio
 
 			if total != sc.H || per[p] != sc.H {
-				vd.fail("lone-priority-not-granted-all", "only priority %d has data (%d items waiting) and no handler releases; after %dns it holds %d of %d handlers (in flight %v)", p, sc.Inputs[0].Prefill, m.T, per[p], sc.H, per)
+				// API-level description of the state: which priorities are below their
+				// share, and would the configured divider give each of them at least one
+				// of the vacant handlers?
+				share := sc.share()
+
+				var below []uint
+
+				for _, in := range sc.Inputs {
+					if per[in.Prio] < int(share[in.Prio]) {
+						below = append(below, in.Prio)
+					}
+				}
+
+				sort.Slice(below, func(i, j int) bool { return below[i] > below[j] })
+
+				d := map[uint]uint{}
+				baseDivider(sc.Divider)(below, uint(max(0, sc.H-total)), d)
+
+				starvedShare := false
+
+				for _, q := range below {
+					if d[q] == 0 {
+						starvedShare = true
+					}
+				}
+
+				vd.failFacts("lone-priority-not-granted-all", map[string]any{
+					"class": sc.Class, "priorities": len(sc.Inputs),
+					"some_priority_below_its_share_gets_none_of_the_vacant_handlers": starvedShare,
+				},
+					"only priority %d has data (%d items written, the last one %dns ago; class %s, %d priorities configured) and no handler releases; it holds %d of %d handlers (in flight %v)", p, avail, m.T-lastT, sc.Class, len(sc.Inputs), per[p], sc.H, per)
 				return
 			}
 
@@ -633,6 +712,15 @@ func checkProgress(vd *Verdict, v *prioView) {
 
 func checkTermination(vd *Verdict, v *prioView) {
 	sc := v.sc
+
+	if sc.Class == "dynamic" {
+		checkDynamic(vd, v, map[string]bool{
+			"terminated-with-open-input": true, "terminated-with-undelivered-item": true,
+			"terminated-with-unreleased-item": true, "graceful-stop-not-finished": true,
+		})
+
+		return
+	}
 
 	if sc.Class != "normal" && sc.Class != "withhold" {
 		return
@@ -1008,12 +1096,30 @@ func checkPrioStop(vd *Verdict, v *prioView) {
 
 // C17 -------------------------------------------------------------------------------
 
-func checkDynamic(vd *Verdict, v *prioView) {
+// checkDynamic is the C17 oracle. C02 and C07 reuse the rules that restate their own
+// property for channels registered through AddInput (only). only == nil: all rules.
+func checkDynamic(vd0 *Verdict, v *prioView, only map[string]bool) {
 	sc := v.sc
 
 	if sc.Class != "dynamic" {
 		return
 	}
+
+	vd := &Verdict{}
+
+	defer func() {
+		for _, x := range vd.Viol {
+			if only == nil || only[x.Rule] {
+				vd0.Viol = append(vd0.Viol, x)
+			}
+		}
+
+		for k, n := range vd.Probes {
+			for i := 0; i < n; i++ {
+				vd0.probe(k)
+			}
+		}
+	}()
 
 	checkCapacity(vd, v)
 
@@ -1130,6 +1236,32 @@ func checkDynamic(vd *Verdict, v *prioView) {
 		for it, g := range v.gotSeq {
 			if r, ok := v.relSeq[it]; g < v.gracefulRet && (!ok || r > v.gracefulRet) {
 				vd.fail("terminated-with-unreleased-item", "GracefulStop returned before item %d was released", it)
+				return
+			}
+		}
+
+		// a channel that is still registered when GracefulStop returns was closed (checked
+		// above), so everything written to it must have been delivered, in order
+		for p, i := range reg {
+			var got []int
+
+			for _, d := range v.sendOrd {
+				if inputOf(d.item) == i && v.sendSeq[d.item] < v.gracefulRet {
+					got = append(got, d.item)
+				}
+			}
+
+			w := v.written[i]
+
+			for k := range got {
+				if k >= len(w) || got[k] != w[k] {
+					vd.fail("order-per-priority", "priority %d (in[%d]): written %v, delivered in the order %v", p, i, w, got)
+					return
+				}
+			}
+
+			if len(got) != len(w) {
+				vd.fail("terminated-with-undelivered-item", "GracefulStop returned although only %d of the %d items written to in[%d] (registered for priority %d, closed) were delivered", len(got), len(w), i, p)
 				return
 			}
 		}
